@@ -48,10 +48,8 @@ func applyUse(u use, m *stun.Message, mutate bool) (ok bool, err error) {
 		case "gobdecode":
 			derr = m.GobDecode(data)
 		case "readfrom":
-			if cap(m.Raw) < len(data) {
-				// ReadFrom reads into the capacity the caller provides
-				m.Raw = append(m.Raw[:0], make([]byte, len(data))...)[:0]
-			}
+			// ReadFrom reads into the capacity the caller provides: runC08 provides it ONCE, before the
+			// first use (like the client's reader does), so every later use must have kept it
 			_, derr = m.ReadFrom(&sliceReader{b: data})
 		case "cloneto":
 			src := &stun.Message{Raw: data}
@@ -149,10 +147,22 @@ type useShape struct {
 
 func runC08(c c08Case) (nontrivial bool, err error) {
 	m := new(stun.Message)
+	readCap := 0
+	for _, u := range c.Uses {
+		if u.Kind == "readfrom" && len(u.Wire)/2 > readCap {
+			readCap = len(u.Wire) / 2
+		}
+	}
+	if readCap > 0 {
+		m.Raw = make([]byte, 0, readCap) // the caller's read buffer, provided once
+	}
 	var prev *useShape
 	var marshaled, marshaledWant []byte
 	for i, u := range c.Uses {
 		twin := &stun.Message{Type: m.Type, TransactionID: m.TransactionID}
+		if readCap > 0 {
+			twin.Raw = make([]byte, 0, readCap)
+		}
 		var ok, tok bool
 		var aerr error
 		perr := pbt.Safely(func() {
